@@ -1,5 +1,5 @@
 (* M4 invariants, part C: every response decided under the mutex was decided by the handler's
-   test in a state of this very run (safety of C06; origin of a leaked mutex for C07). *)
+   test in a state of this very run (safety of C06). *)
 From Coq Require Import List ZArith Lia Bool String Arith.
 From GoHls Require Import Lib.MuxSched Model.MuxConcSeq Model.MuxConcSpec Model.MuxConcPar
   Proofs.MuxConcSeqA Proofs.MuxConcSeqB Proofs.MuxConcInvA Proofs.MuxConcInvB.
@@ -28,8 +28,7 @@ Qed.
 Definition hist_ok (c0 : cstate) (sched : list tid) (i : nat) (r : rstate) : Prop :=
   (forall resp, (r_pc r = PUnlock resp \/ (r_pc r = PDone resp /\ from_test resp = true)) ->
                 decided_at c0 sched i (req_query (r_req r)) (TExit resp))
-  /\ (forall h, r_pc r = PUnlockCall h -> decided_at c0 sched i (req_query (r_req r)) (TBreakHint h))
-  /\ (r_leaked r = true -> decided_at c0 sched i (req_query (r_req r)) (TLeak R500)).
+  /\ (forall h, r_pc r = PUnlockCall h -> decided_at c0 sched i (req_query (r_req r)) (TBreakHint h)).
 
 Definition hist_inv (c0 : cstate) (sched : list tid) : Prop :=
   forall i r, nth_error (c_reqs (crun c0 sched)) i = Some r -> hist_ok c0 sched i r.
@@ -49,34 +48,22 @@ Proof.
   destruct (handleMediaPlaylist_pre (m_variant m) q); try discriminate. inversion H; reflexivity.
 Qed.
 
-Lemma test_leak_500 : forall m q f resp, test m q f = TLeak resp -> resp = R500.
-Proof.
-  intros m q f resp H. destruct f as [|i msn p d|i d|i id]; unfold test in H.
-  - destruct (m_closed m); [discriminate|]. destruct (nth_error (m_streams m) 0); [|discriminate].
-    destruct (hasContent _ _); discriminate.
-  - destruct (nth_error (m_streams m) i); [|discriminate]. destruct (s_closed s); [discriminate|].
-    destruct (decide_core _ _ _ _); discriminate.
-  - destruct (nth_error (m_streams m) i); [|discriminate]. destruct (s_closed s); [discriminate|].
-    destruct (hasContent _ _); discriminate.
-  - destruct (nth_error (m_streams m) i); [|discriminate]. destruct (s_closed s).
-    + inversion H; reflexivity.
-    + destruct (id <? nextPartID s); discriminate.
-Qed.
-
 Lemma hist_ok_wake : forall c0 sched i r, hist_ok c0 sched i r -> hist_ok c0 sched i (wake r).
 Proof.
   intros c0 sched i r H. destruct (wake_pc r) as [[f [E1 E2]]|[_ E2]]; [|rewrite E2; exact H].
-  destruct (wake_fields r) as [Eq [El _]]. destruct H as [H1 [H2 H3]].
-  unfold hist_ok. rewrite Eq, El, E2. repeat split.
+  destruct (wake_fields r) as [Eq _]. destruct H as [H1 H2].
+  unfold hist_ok. rewrite Eq, E2. split.
   - intros resp [Hc|[Hc _]]; discriminate.
   - intros h Hc; discriminate.
-  - exact H3.
 Qed.
 
 Lemma hist_ok_snoc : forall c0 sched t i r, hist_ok c0 sched i r -> hist_ok c0 (sched ++ [t]) i r.
 Proof.
-  intros c0 sched t i r [H1 [H2 H3]]. repeat split; intros; apply decided_at_snoc; auto.
+  intros c0 sched t i r [H1 H2]. split; intros; apply decided_at_snoc; auto.
 Qed.
+
+Lemma hint_call_not_from_test : forall h resp, hint_call h = PDone resp -> from_test resp = false.
+Proof. intros [h|] resp H; simpl in H; [discriminate|]. inversion H; reflexivity. Qed.
 
 Lemma hist_ok_lstep : forall c0 sched i r m w n o,
   hist_ok c0 sched i r ->
@@ -85,44 +72,43 @@ Lemma hist_ok_lstep : forall c0 sched i r m w n o,
   hist_ok c0 (sched ++ [TR i]) i (fst (lstep m w n i r o)).
 Proof.
   intros c0 sched i r m w n o K Hnow.
-  pose proof (hist_ok_snoc _ _ (TR i) _ _ K) as [K1 [K2 K3]].
+  pose proof (hist_ok_snoc _ _ (TR i) _ _ K) as [K1 K2].
   unfold hist_ok. rewrite lstep_req. unfold lstep. destruct (r_pc r) eqn:Ep.
-  - simpl. repeat split; [intros resp [Hc|[Hc _]]; discriminate|intros h Hc; discriminate|exact K3].
+  - simpl. split; [intros resp [Hc|[Hc _]]; discriminate|intros h Hc; discriminate].
   - simpl. destruct (call_pc m (req_query (r_req r)) h) as [[rr Ec]|[ff Ec]]; rewrite Ec.
-    + repeat split; [|intros hh Hc; discriminate|exact K3].
+    + split; [|intros hh Hc; discriminate].
       intros resp [Hc|[Hc Hf]]; [discriminate|]. inversion Hc; subst.
       rewrite (call_not_from_test _ _ _ _ Ec) in Hf. discriminate.
-    + repeat split; [intros resp [Hc|[Hc _]]; discriminate|intros hh Hc; discriminate|exact K3].
+    + split; [intros resp [Hc|[Hc _]]; discriminate|intros hh Hc; discriminate].
   - destruct o; simpl; rewrite ?Ep;
-      (repeat split; [intros resp [Hc|[Hc _]]; discriminate|intros hh Hc; discriminate|exact K3]).
+      (split; [intros resp [Hc|[Hc _]]; discriminate|intros hh Hc; discriminate]).
   - destruct (test m (req_query (r_req r)) f) eqn:Et; simpl.
-    + repeat split; [|intros hh Hc; discriminate|intros Hc; discriminate].
+    + split; [|intros hh Hc; discriminate].
       intros resp [Hc|[Hc _]]; [|discriminate]. inversion Hc; subst. eapply Hnow; eauto.
-    + pose proof (test_leak_500 _ _ _ _ Et); subst r0.
-      repeat split; [|intros hh Hc; discriminate|intros _; eapply Hnow; eauto].
-      intros resp [Hc|[Hc Hf]]; [discriminate|]. inversion Hc; subst. discriminate.
-    + repeat split; [intros resp [Hc|[Hc _]]; discriminate| |intros Hc; discriminate].
+    + split; [intros resp [Hc|[Hc _]]; discriminate|].
       intros hh Hc. inversion Hc; subst. eapply Hnow; eauto.
-    + repeat split; [intros resp [Hc|[Hc _]]; discriminate|intros hh Hc; discriminate|exact K3].
-  - simpl. rewrite Ep. repeat split; [intros resp [Hc|[Hc _]]; discriminate|intros hh Hc; discriminate|exact K3].
+    + split; [intros resp [Hc|[Hc _]]; discriminate|intros hh Hc; discriminate].
+  - simpl. rewrite Ep. split; [intros resp [Hc|[Hc _]]; discriminate|intros hh Hc; discriminate].
   - destruct o; simpl; rewrite ?Ep;
-      (repeat split; [intros resp [Hc|[Hc _]]; discriminate|intros hh Hc; discriminate|exact K3]).
-  - simpl. repeat split; [|intros hh Hc; discriminate|exact K3].
+      (split; [intros resp [Hc|[Hc _]]; discriminate|intros hh Hc; discriminate]).
+  - simpl. split; [|intros hh Hc; discriminate].
     intros resp [Hc|[Hc Hf]]; [discriminate|]. inversion Hc; subst. apply K1. left; reflexivity.
-  - simpl. repeat split; [intros resp [Hc|[Hc _]]; discriminate|intros hh Hc; discriminate|exact K3].
-  - simpl. rewrite Ep. repeat split; [|intros hh Hc; discriminate|exact K3].
+  - simpl. split.
+    + intros resp [Hc|[Hc Hf]]; [destruct h; discriminate|].
+      rewrite (hint_call_not_from_test _ _ Hc) in Hf. discriminate.
+    + intros hh Hc. destruct h; discriminate.
+  - simpl. rewrite Ep. split; [|intros hh Hc; discriminate].
     intros resp [Hc|[Hc Hf]]; [discriminate|]. apply K1. right. split; assumption.
 Qed.
 
-Lemma hist_inv_all : forall c0, (forall i r, nth_error (c_reqs c0) i = Some r -> r_pc r = PStart /\ r_leaked r = false) ->
+Lemma hist_inv_all : forall c0, (forall i r, nth_error (c_reqs c0) i = Some r -> r_pc r = PStart) ->
   forall sched, hist_inv c0 sched.
 Proof.
   intros c0 H0 sched. induction sched as [|t sched IH] using rev_ind.
-  - intros i r Hi. destruct (H0 i r Hi) as [Hp Hl]. unfold crun, run in Hi. simpl in Hi.
-    repeat split.
+  - intros i r Hi. pose proof (H0 i r Hi) as Hp. unfold crun, run in Hi. simpl in Hi.
+    split.
     + intros resp [Hc|[Hc _]]; rewrite Hp in Hc; discriminate.
     + intros h Hc; rewrite Hp in Hc; discriminate.
-    + rewrite Hl; discriminate.
   - intros j x Hj. unfold crun in Hj. rewrite run_snoc in Hj. fold (crun c0 sched) in Hj.
     set (c := crun c0 sched) in *.
     assert (Hsame : nth_error (c_reqs c) j = Some x -> hist_ok c0 (sched ++ [t]) j x)
